@@ -377,14 +377,16 @@ func c14History(r *Run, idx int) {
 		a.sec.fail = func(op string, n int64) bool { return frng.Intn(100) < cfg.FailPct }
 	}
 	logs := make([][]hop, cfg.Clients+1)
-	var wg sync.WaitGroup
+	var wg, clients sync.WaitGroup
 	start := make(chan struct{})
 	var stop atomic.Bool
 	for cl := 0; cl < cfg.Clients; cl++ {
 		wr := rand.New(rand.NewSource(rng.Int63()))
 		wg.Add(1)
+		clients.Add(1)
 		go func(cl int) {
 			defer wg.Done()
+			defer clients.Done()
 			lg := make([]hop, 0, cfg.Ops)
 			<-start
 			for i := 0; i < cfg.Ops; i++ {
@@ -449,17 +451,8 @@ func c14History(r *Run, idx int) {
 	}()
 	close(start)
 	// wait for the clients, then stop the demoter
-	done := make(chan struct{})
-	go func() {
-		for cl := 0; cl < cfg.Clients; cl++ {
-			for logs[cl] == nil {
-				time.Sleep(100 * time.Microsecond)
-			}
-		}
-		stop.Store(true)
-		close(done)
-	}()
-	<-done
+	clients.Wait()
+	stop.Store(true)
 	wg.Wait()
 	var all []hop
 	for _, lg := range logs {
